@@ -5,11 +5,32 @@ pub struct Ed25519KeyHash(pub u64);
 impl Clone for Ed25519KeyHash { #[verifier::external_body] fn clone(&self) -> (r: Ed25519KeyHash) ensures r == *self { unimplemented!() } }
 #[derive(Clone)]
 pub enum CborSetType { Tagged, Untagged }
-opaque_types!(ScriptHash, TransactionInput, Value, ScriptsTable, RewardAddress, MalformedAddress, Pointer, ByronAddress);
-clone_eq!(TransactionInput, Value, ByronAddress);
+opaque_types!(ScriptHash, TransactionInput, ScriptsTable, RewardAddress, MalformedAddress, Pointer, ByronAddress);
+clone_eq!(TransactionInput, ByronAddress);
+// Value: lovelace + abstract per-asset quantities; checked_add exact-or-Err (ASSUMED here as in the builder units: Entry-API code)
+pub struct Value { pub coin: u64, pub assets: AssetsView }
+#[verifier::external_body] pub struct AssetsView { _p: core::marker::PhantomData<u8> }
+pub type AssetId = int;
+impl AssetsView { pub uninterp spec fn q(&self, a: AssetId) -> nat; }
+impl Clone for Value { #[verifier::external_body] fn clone(&self) -> (r: Self) ensures r == *self { unimplemented!() } }
+impl Value {
+    #[verifier::external_body] pub fn zero() -> (r: Value) ensures r.coin == 0, forall|a: AssetId| r.assets.q(a) == 0 { unimplemented!() }
+    #[verifier::external_body] pub fn checked_add(&self, rhs: &Value) -> (r: Result<Value, JsError>)
+        ensures r is Ok ==> r->Ok_0.coin == self.coin + rhs.coin && forall|a: AssetId| r->Ok_0.assets.q(a) == self.assets.q(a) + rhs.assets.q(a) { unimplemented!() }
+}
+pub open spec fn sum_coin(s: Seq<(TxBuilderInput, Option<ScriptHash>)>) -> nat decreases s.len() { if s.len() == 0 { 0 } else { sum_coin(s.drop_last()) + s.last().0.amount.coin as nat } }
+pub open spec fn sum_q(s: Seq<(TxBuilderInput, Option<ScriptHash>)>, a: AssetId) -> nat decreases s.len() { if s.len() == 0 { 0 } else { sum_q(s.drop_last(), a) + s.last().0.amount.assets.q(a) } }
+pub proof fn lemma_sum_step(s: Seq<(TxBuilderInput, Option<ScriptHash>)>, i: int)
+    requires 0 <= i < s.len()
+    ensures sum_coin(s.take(i + 1)) == sum_coin(s.take(i)) + s[i].0.amount.coin, forall|a: AssetId| sum_q(s.take(i + 1), a) == sum_q(s.take(i), a) + s[i].0.amount.assets.q(a)
+{ assert(s.take(i + 1).drop_last() =~= s.take(i)); }
 /// the ordered input map as a mathematical map (BTreeMap::insert: ASSUMED std semantics - the new value replaces an old one under the key)
 #[verifier::external_body] pub struct InputsMap { _p: core::marker::PhantomData<u8> }
 impl InputsMap {
+    /// the entries in ascending outpoint order (BTreeMap::values: ASSUMED std semantics)
+    pub uninterp spec fn vals(&self) -> Seq<(TxBuilderInput, Option<ScriptHash>)>;
+    #[verifier::external_body] pub fn values(&self) -> (r: core::slice::Iter<'_, (TxBuilderInput, Option<ScriptHash>)>)
+        ensures r.remaining() == refs(self.vals()), r.obeys_prophetic_iter_laws(), r.decrease() is Some { unimplemented!() }
     pub uninterp spec fn m(&self) -> Map<TransactionInput, (TxBuilderInput, Option<ScriptHash>)>;
     #[verifier::external_body] pub fn insert(&mut self, k: TransactionInput, v: (TxBuilderInput, Option<ScriptHash>)) -> (r: Option<(TxBuilderInput, Option<ScriptHash>)>)
         ensures final(self).m() == old(self).m().insert(k, v) { unimplemented!() }
